@@ -540,6 +540,8 @@ class Translator:
         if self.hooks.get("attribute") and not is_sym(obj) and not isinstance(obj, (dict, SelfObj, Opaque, Mod, np.ndarray, DType, list, tuple, str)):
             return self.hooks["attribute"](self, obj, n.attr, n)  # checker-defined abstract values
         if n.attr in ("shape",):
+            if isinstance(obj, TensorList):
+                return (sp.Integer(len(obj)),)
             if isinstance(obj, np.ndarray):
                 return tuple(sp.Integer(k) for k in obj.shape)  # the component model knows its shape
             if self.hooks.get("allow_shape"):
@@ -1157,6 +1159,9 @@ class Translator:
         raise Unmodelled("operator %s" % type(op).__name__)
 
     def compare(self, op, a, b):
+        if isinstance(op, (ast.Is, ast.IsNot)) and (is_arr(a) or is_arr(b)):
+            r = a is b
+            return r if isinstance(op, ast.Is) else not r
         if is_arr(a) or is_arr(b):
             # element-wise comparison of component arrays: an array of sympy relationals
             rel = {ast.Lt: sp.Lt, ast.LtE: sp.Le, ast.Gt: sp.Gt, ast.GtE: sp.Ge, ast.Eq: sp.Eq, ast.NotEq: sp.Ne}.get(type(op))
@@ -1234,6 +1239,14 @@ class PySet(list):
         k = _pykey(x)
         if k in self:
             list.remove(self, k)
+
+
+class TensorList(list):
+    """a 1-d tensor modelled as the python list of its elements: .shape is (len,), slices stay tensors"""
+
+    def __getitem__(self, k):
+        r = list.__getitem__(self, k)
+        return TensorList(r) if isinstance(k, slice) else r
 
 
 class PyIter(list):
